@@ -3,6 +3,11 @@
 # kind: rapid (default) | exhaustive | plain
 # quick/thorough: checks = total rapid cases over all shards; shards = processes; timeout = seconds per shard
 PARTS = {
+    "C07": [
+        {"test": "TestVfC07Mesh",
+         "quick": {"checks": 6000, "shards": 4, "timeout": 600},
+         "thorough": {"checks": 400000, "shards": 16, "timeout": 2400}},
+    ],
     "C17": [
         {"test": "TestVfC17aMcache",
          "quick": {"checks": 20000, "shards": 4, "timeout": 300},
